@@ -30,7 +30,9 @@ def run(ck: Check):
     loaded = {"jsstr": [b'f("ab", "cd", "K", "e", "gh");\n', b"x = 'a' + \"bc\";\n'\\x41\\u1234';\n", b'"a""b""c"',
                         # an opening quote that is never closed, with escaped quotes of the same kind after it
                         b'var t = "it\\"s broken;\n', b"'a\\'b 'c' d\\'e", b'"ok" + "x\\"y'],
-              "attrs": [b'<a b="c" d e=f><g h=\'i\' j>\n', b"<x y z=1><w v u>"],
+              "attrs": [b'<a b="c" d e=f><g h=\'i\' j>\n', b"<x y z=1><w v u>",
+                        # self-closing tags: the slash belongs to the tag, not to the attribute in front of it
+                        b"<form id=f a=1>\n<input disabled/>\n<br/><i d />\n</form>\n", b'<a b/><c d="e"/><f g=h/>'],
               "symbol": [b"a;b;c{d}e;\n", b"f(x);g[1]=2;\n"], "char": [b"abcdef", b"DDBEGIN\nxyz\nDDEND\n"],
               "line": [b"DDBEGIN\na\nb\nc\nDDEND\n", b"a\r\nb\r\nc\r\n", b"x\ry\rz\x0b\xc2\x85w"]}
     from common import run_model
